@@ -261,4 +261,81 @@ theorem hermite_cubic (p0 m0 p1 m1 : ℝ) :
   unfold h00 h10 h01 h11
   simp only [k_real]; push_cast; ring
 
+/-! ## the float `arange` length against the rational count -/
+
+theorem roundAt_bounds (num den s : Nat) (h : 0 < num) :
+    den * 2 ^ s / num ≤ roundAt num den s ∧ roundAt num den s * num < den * 2 ^ s + num := by
+  unfold roundAt
+  set D := den * 2 ^ s with hD
+  have hdm := Nat.div_add_mod D num
+  have hml := Nat.mod_lt D h
+  have e1 : D / num * num = num * (D / num) := Nat.mul_comm _ _
+  by_cases hup : (decide (num < 2 * (D % num)) || (2 * (D % num) == num && D / num % 2 == 1)) = true
+  · simp only [hup, if_true]
+    have hr : 0 < D % num := by
+      simp only [Bool.or_eq_true, decide_eq_true_eq, Bool.and_eq_true, beq_iff_eq] at hup
+      rcases hup with h1 | ⟨h1, _⟩ <;> omega
+    refine ⟨Nat.le_succ _, ?_⟩
+    rw [Nat.succ_mul, e1]; omega
+  · simp only [hup, Bool.false_eq_true, if_false]
+    refine ⟨le_refl _, ?_⟩
+    rw [e1]; omega
+
+theorem count_mul_ge (num den : Nat) (h : 0 < num) : den ≤ count num den * num := by
+  unfold count
+  have hdm := Nat.div_add_mod (den + num - 1) num
+  have hml := Nat.mod_lt (den + num - 1) h
+  rw [Nat.mul_comm]; omega
+
+theorem ceilShift_le_of (m s c : Nat) (h : m ≤ c * 2 ^ s) : ceilShift m s ≤ c := by
+  unfold ceilShift
+  have hP : 0 < 2 ^ s := Nat.pow_pos (by norm_num)
+  apply Nat.le_of_lt_succ
+  rw [Nat.div_lt_iff_lt_mul hP, Nat.succ_mul]
+  omega
+
+theorem le_ceilShift_of (m s c : Nat) (h : c * 2 ^ s ≤ m) : c ≤ ceilShift m s := by
+  unfold ceilShift
+  have hP : 0 < 2 ^ s := Nat.pow_pos (by norm_num)
+  rw [Nat.le_div_iff_mul_le hP]
+  omega
+
+theorem floatLen_bounds_at (num den s : Nat) (h : 0 < num) :
+    ceilShift (roundAt num den s) s ≤ count num den ∧ count num den ≤ ceilShift (roundAt num den s) s + 1 := by
+  obtain ⟨hlo, hhi⟩ := roundAt_bounds num den s h
+  have hc := count_mul_ge num den h
+  constructor
+  · apply ceilShift_le_of
+    have h2 : den * 2 ^ s ≤ count num den * 2 ^ s * num := by
+      calc den * 2 ^ s ≤ count num den * num * 2 ^ s := Nat.mul_le_mul_right _ hc
+        _ = count num den * 2 ^ s * num := by ring
+    have h3 : roundAt num den s * num < (count num den * 2 ^ s + 1) * num := by
+      rw [Nat.add_mul, Nat.one_mul]; omega
+    exact Nat.lt_succ_iff.mp (Nat.lt_of_mul_lt_mul_right h3)
+  · have h1 : den / num ≤ ceilShift (roundAt num den s) s := by
+      apply le_ceilShift_of
+      refine le_trans ?_ hlo
+      rw [Nat.le_div_iff_mul_le h]
+      calc den / num * 2 ^ s * num = den / num * num * 2 ^ s := by ring
+        _ ≤ den * 2 ^ s := Nat.mul_le_mul_right _ (Nat.div_mul_le_self den num)
+    have h2 : count num den ≤ den / num + 1 := by
+      unfold count
+      calc (den + num - 1) / num ≤ (den + num) / num := Nat.div_le_div_right (by omega)
+        _ = den / num + 1 := Nat.add_div_right den h
+    omega
+
+/-! ## cumulative B-spline weights as cubics -/
+
+theorem bw1_cubic : (bw1 : ℝ → ℝ) = fun u => 5 / 6 + 1 / 2 * u + (-1 / 2) * u ^ 2 + 1 / 6 * u ^ 3 := by
+  funext u; unfold bw1; simp only [k_real, q_real]; push_cast; ring
+theorem bw2_cubic : (bw2 : ℝ → ℝ) = fun u => 1 / 6 + 1 / 2 * u + 1 / 2 * u ^ 2 + (-1 / 3) * u ^ 3 := by
+  funext u; unfold bw2; simp only [k_real, q_real]; push_cast; ring
+theorem bw3_cubic : (bw3 : ℝ → ℝ) = fun u => 0 + 0 * u + 0 * u ^ 2 + 1 / 6 * u ^ 3 := by
+  funext u; unfold bw3; simp only [k_real, q_real]; push_cast; ring
+
+theorem quad_hasDerivAt (a b c t : ℝ) : HasDerivAt (fun s : ℝ => a + b * s + c * s ^ 2) (b + 2 * c * t) t := by
+  have := cubic_hasDerivAt a b c 0 t
+  simp only [zero_mul, add_zero, mul_zero] at this
+  exact this
+
 end PP.Spline
